@@ -54,6 +54,8 @@ package internal
 //@       len(rdStream[r.in]) < old(rdPos[r.in]) + 4 || len(rdStream[r.in]) < old(rdPos[r.in]) + 4 + be32At(rdStream[r.in], old(rdPos[r.in]))
 //@   ensures @cleaneof readErr != nil && errIs(readErr, io.EOF) && rdPos[r.in] != old(rdPos[r.in]) + 4 ==> rdPos[r.in] == old(rdPos[r.in]) && rdPos[r.in] == len(rdStream[r.in])
 //@   //# (the size-limit error is built by fmt.Errorf, about which only "non-nil" is assumed; hence the exclusion of the position right after the prefix)
+//@   //# progress as the timeout path will report it: entering the payload phase means "prefix done, 0 of msgSize bytes read"
+//@   assert_at "r.mu.Unlock()": r.prefixDone && r.bytesRead == 0 && r.bytesExpecting == msgSize
 
 // Peer-side binary stream decoder: one message = 4-byte big-endian length + that many bytes;
 // a clean end between messages is io.EOF with nothing consumed, an end inside a prefix or a
@@ -85,3 +87,13 @@ package internal
 //@   trusted
 //@   //# the runner reads the two compat response types; everything else unmarshalling creates is fresh
 //@   modifies rdPos, conformancev1.ClientCompatResponse.*, conformancev1.ServerCompatResponse.*
+
+// JSON variant: end of input is reported (io.EOF) exactly when the stream ended cleanly
+// between two values; a stream cut inside a value is an error that is not io.EOF; success
+// exactly when a value was decoded and unmarshalled.
+//@ func (*jsonDecoder).DecodeNext
+//@   requires j != nil && j.decoder != nil
+//@   modifies jdLast, lastUnmarshalFmt
+//@   ensures @clean-end errIs(result, io.EOF) == (jdLast[j.decoder] == 1)
+//@   ensures @truncated jdLast[j.decoder] == 2 ==> result != nil && !errIs(result, io.EOF)
+//@   ensures @ok result == nil ==> jdLast[j.decoder] == 0
